@@ -5,6 +5,7 @@
      ProofsDecode  decoding an encoded frame / stream; prefix stability; fuel
      ProofsTorn    the decoder at a torn frame
      ProofsPrefix  the prefix theorem for truncated images
-     ProofsLog     ReadAll's entry placement *)
+     ProofsLog     ReadAll's entry placement
+     ProofsRefute  witnesses against the full statement (Spec.C05_full) *)
 From ZV Require Export Wal.ProofsCrc Wal.ProofsProto Wal.ProofsFrame Wal.ProofsDecode Wal.ProofsTorn
-  Wal.ProofsPrefix Wal.ProofsLog.
+  Wal.ProofsPrefix Wal.ProofsLog Wal.ProofsRefute.
